@@ -143,6 +143,8 @@ def variants(kind, inp):
     """container variants that denote exactly (rows, width) under the documented coercion"""
     if inp["frame"]:
         return ["frame"]
+    if inp["rows"] == 0:
+        return ["array2d"]          # (an empty list would denote a row of width 0, not zero rows of this width)
     v = ["array2d", "list2d"]
     if kind == "stream" and inp["rows"] == 1:
         v += ["array1d", "list1d", "series"]
@@ -165,6 +167,9 @@ def alphabet(kind, name=""):
             out.append({"frame": False, "rows": rows, "width": w, "names": "-"})
             for nm in ([",".join(NAMES[w])] + (["a,c"] if w == 2 else [])):
                 out.append({"frame": True, "rows": rows, "width": w, "names": nm})
+    # no observation at all (an empty filter result, `df.iloc[0:0]`, a (0, d) array): neither "exactly one" nor "at least two"
+    out += [{"frame": False, "rows": 0, "width": 1, "names": "-"}, {"frame": False, "rows": 0, "width": 2, "names": "-"},
+            {"frame": True, "rows": 0, "width": 1, "names": "a"}]
     return out
 
 
